@@ -185,4 +185,34 @@ theorem walk_par_eq_seq {σ : Type} (le : Hit α → Hit α → Bool)
         · rw [List.length_append, hlenA]; omega
         · simp only [List.length_append, List.length_reverse, List.length_map, hlenA]; omega
 
+/-! ### the repaired merge key is the raw ranking key when `_qscore` is monotone -/
+
+theorem hitLeQR_eq_rawLe (q : α → Int) (lt : α → α → Bool)
+    (asym : ∀ x y, lt x y = true → lt y x = false)
+    (qmono : ∀ x y, lt x y = false → q y ≤ q x) (a b : Hit α) :
+    hitLeQR q lt a b = rawLe lt a b := by
+  unfold hitLeQR rawLe
+  cases hba : lt b.score a.score <;> cases hab : lt a.score b.score
+  · -- neither is smaller: same quantum
+    have h1 := qmono _ _ hba
+    have h2 := qmono _ _ hab
+    have : q a.score = q b.score := by omega
+    simp [this]
+  · -- a < b strictly
+    have h1 := qmono _ _ hba
+    by_cases hq : q a.score = q b.score
+    · simp [hq]
+    · have : ¬ (q b.score < q a.score) := by omega
+      simp [this, hq]
+  · -- b < a strictly
+    have h2 := qmono _ _ hab
+    by_cases hq : q a.score = q b.score
+    · simp [hq]
+    · have : q b.score < q a.score := by omega
+      simp [this]
+  · -- both strictly smaller: excluded by asymmetry
+    have := asym _ _ hba
+    rw [hab] at this
+    cases this
+
 end Clem.ParT2
